@@ -368,13 +368,16 @@ func checkC08(c C08Case, rec *obs.Recorder) *obs.Violation {
 					return obs.Violf("history [%s]: GetBlockID found %s, which nobody added", strings.Join(hist, "; "), p.Text())
 				}
 			}
+			// every action uses its own symbols, so a fact lives in exactly one block
 			for bi, b := range toks[i].model {
-				if len(b.Facts) > 0 {
-					got, err := toks[i].tok.GetBlockID(bridge.ToFact(b.Facts[0]))
-					if err != nil || got != bi {
-						return obs.ViolK("blockid", "history [%s]: GetBlockID(%s) on t%d = %d, %v; the fact was put in block %d", strings.Join(hist, "; "), b.Facts[0].Text(), i, got, err, bi)
+				for fi, f := range b.Facts {
+					if fi != 0 && fi != len(b.Facts)-1 {
+						continue
 					}
-					break
+					got, err := toks[i].tok.GetBlockID(bridge.ToFact(f))
+					if err != nil || got != bi {
+						return obs.ViolK("blockid", "history [%s]: GetBlockID(%s) on t%d = %d, %v; the fact was put in block %d", strings.Join(hist, "; "), f.Text(), i, got, err, bi)
+					}
 				}
 			}
 		case "authorize":
